@@ -387,7 +387,10 @@ var vtransforms = []vtransform{
 			return l
 		})
 	}},
-	{"hyphen-split-dense", "C06", false, func(r *vrand, in []byte) []byte { return vdenseHyphen(in, 2+r.intn(2)) }},
+	{"hyphen-split-dense", "C06", false, func(r *vrand, in []byte) []byte { return vdenseHyphen(in, 2+r.intn(2), "") }},
+	{"hyphen-split-indent", "C06", false, func(r *vrand, in []byte) []byte {
+		return vdenseHyphen(in, 2+r.intn(2), strings.Repeat(" ", 1+r.intn(8)))
+	}},
 	{"spelling", "C06", true, func(r *vrand, in []byte) []byte {
 		s := string(in)
 		pairs := [][2]string{{"license", "licence"}, {"License", "Licence"}, {"while", "whilst"}, {"organization", "organisation"}, {"authorized", "authorised"}, {"fulfill", "fulfil"}, {"center", "centre"}, {"favor", "favour"}, {"recognize", "recognise"}, {"program", "programme"}}
@@ -408,8 +411,8 @@ var vtransforms = []vtransform{
 }
 
 // vdenseHyphen splits every long alphabetic word that is not the first of its line after h letters
-// with a hyphen and a line break: wherever a read-buffer boundary falls, a joined word is near.
-func vdenseHyphen(in []byte, h int) []byte {
+// with a hyphen and a line break (the second half indented by `indent`): wherever a read-buffer boundary falls, a joined word is near.
+func vdenseHyphen(in []byte, h int, indent string) []byte {
 	return vmapLines(in, func(i int, l string) string {
 		if visNotice(l) {
 			return l
@@ -417,7 +420,7 @@ func vdenseHyphen(in []byte, h int) []byte {
 		ws := strings.Split(l, " ")
 		for k := 1; k < len(ws); k++ {
 			if w := ws[k]; len(w) >= 6 && visAlpha(w) {
-				ws[k] = w[:h] + "-\n" + w[h:]
+				ws[k] = w[:h] + "-\n" + indent + w[h:]
 			}
 		}
 		return strings.Join(ws, " ")
@@ -615,6 +618,31 @@ func vrunMeta(t *testing.T, prop string) {
 				o.verdictSig(prop, in.id+"_notice", what == "", true, "notice:"+vhash(data), sig, map[string]interface{}{"what": vclip(what), "line": pos + 1, "input_hex": vclip(hx(data))})
 				cnt["notice-reported"]++
 			}
+			// the same on the text with every long word hyphen-split, the notice as its last line:
+			// every deferred line break before it has to have been accounted for
+			hy := strings.TrimRight(string(vdenseHyphen(in.data, 3, "")), "\n")
+			if !strings.HasSuffix(hy, "-") {
+				at := strings.Count(hy, "\n") + 2
+				hdata := []byte(hy + "\n" + notice + "\n")
+				hgot := c.Match(hdata)
+				found := false
+				for _, m := range hgot.Matches {
+					if m.MatchType == "Copyright" && m.StartLine == at && m.EndLine == at {
+						found = true
+					}
+				}
+				what, sig := "", ""
+				if !found {
+					what = fmt.Sprintf("copyright notice appended as line %d of a hyphen-split text is not reported there (matches: %s)", at, vshowResults(hgot))
+					for _, m := range hgot.Matches {
+						if m.MatchType != "Copyright" && m.StartLine <= at && at <= m.EndLine {
+							sig = "C06/copyright-inside-span"
+						}
+					}
+				}
+				o.verdictSig(prop, in.id+"_hynotice", what == "", true, "hynotice:"+vhash(hdata), sig, map[string]interface{}{"what": vclip(what), "line": at, "input_hex": vclip(hx(hdata))})
+				cnt["notice-after-hyphen-split"]++
+			}
 		}
 	}
 	o.stat(prop, map[string]interface{}{"transform_applications": cnt})
@@ -643,20 +671,28 @@ func vclassifyMeta(c *Classifier, tr string, in, data []byte, base, got Results,
 	lines := strings.Split(string(data), "\n")
 	var out []string
 	undone := 0
-	for i := 0; i < len(lines); i++ {
+	for i := 0; i < len(lines); {
 		l := lines[i]
-		if strings.HasSuffix(l, "-") && i+1 < len(lines) {
-			f := strings.Fields(lines[i+1])
-			rest := ""
-			if len(f) >= 2 {
-				rest = strings.Join(f[1:], " ")
+		i++
+		// a merged line may itself end in a split (dense splits chain)
+		for strings.HasSuffix(l, "-") && i < len(lines) {
+			f := strings.Fields(lines[i])
+			if len(f) < 2 {
+				break
 			}
-			if len(f) >= 2 && (header(strings.ToLower(strings.TrimLeft(f[1], "`'\"<[{*_~"))) || visNotice(rest)) {
-				out = append(out, l[:len(l)-1]+lines[i+1])
-				i++
-				undone++
-				continue
+			// the restarted "line" runs up to the next join: complete its last word
+			rest := strings.Join(f[1:], " ")
+			if strings.HasSuffix(rest, "-") && i+1 < len(lines) {
+				if g := strings.Fields(lines[i+1]); len(g) > 0 {
+					rest = rest[:len(rest)-1] + g[0]
+				}
 			}
+			if !header(strings.ToLower(strings.TrimLeft(f[1], "`'\"<[{*_~"))) && !visNotice(rest) {
+				break
+			}
+			l = l[:len(l)-1] + strings.TrimLeft(lines[i], " \t")
+			i++
+			undone++
 		}
 		out = append(out, l)
 	}
@@ -873,7 +909,7 @@ func TestVerifC08(t *testing.T) {
 	// every long word split across a line break with a hyphen: the state of a pending join is
 	// alive at about every second byte, so it is alive at the buffer boundaries for most pads
 	for _, d := range vnamed("License/Apache-2.0/a.txt", "License/MIT/a.txt") {
-		inputs = append(inputs, vinput{id: "mbhy_" + d.name, data: vdenseHyphen(d.data, 3)})
+		inputs = append(inputs, vinput{id: "mbhy_" + d.name, data: vdenseHyphen(d.data, 3, "")})
 	}
 	nfrag, npad, nfail := 0, 0, 0
 	for ii, in := range inputs {
